@@ -11,7 +11,8 @@ for P in $PROPS; do
     if [ "$P" = C15 ] && [ -f shim/entropy.so -o -f /verif/shim/entropy.so ]; then
       VERIF_ENTROPY_SEED=$s LD_PRELOAD=/verif/shim/entropy.so ./harness/target/release/smtverif $P $T --seed $s 2>/dev/null | grep '^  key: '
     else
-      ./harness/target/release/smtverif $P $T --seed $s 2>/dev/null | grep '^  key: '
+      ./harness/target/release/smtverif $P $T --seed $s 2>/dev/null | grep '^  key: '; rc=${PIPESTATUS[0]}
+      [ "$rc" -gt 1 ] && echo "  key: HARNESS-ERROR rc=$rc seed=$s"
     fi
   done | sort | uniq -c | sed "s/^/$P /"
   echo "$P done seeds $A..$B"
